@@ -638,9 +638,19 @@ func GetHandleID(netName, containerID, workload string) string {
 	return handleID
 }
 
+// clientOverride is nil in normal builds.  It can only be set from a file
+// guarded by the "verif" build tag (deterministic-simulation harness), in which
+// case CreateClient hands out the client it returns instead of dialling a datastore.
+var clientOverride func(conf types.NetConf) client.Interface
+
 func CreateClient(conf types.NetConf) (client.Interface, error) {
 	if err := ValidateNetworkName(conf.Name); err != nil {
 		return nil, err
+	}
+	if clientOverride != nil {
+		if c := clientOverride(conf); c != nil {
+			return c, nil
+		}
 	}
 
 	// Use the config file to override environment variables.
